@@ -471,7 +471,7 @@ func TestC07(t *testing.T) {
 	race := os.Getenv("VERIF_RACE") != ""
 	n := cases(160, 4000)
 	if race {
-		n = ev.Scale(60, 1000)
+		n = ev.Scale(150, 1500)
 	}
 	check(t, "C07", n, 0, func(rt *rapid.T) {
 		p, crit, nclients := genProgram07(rt, nil)
